@@ -142,7 +142,7 @@ def realView (O : FloatOps F C) : NNum F C → Option FView
   | .float f => some (O.view f)
   | .complex _ => none
 
-/-- `floor`, `ceil`, `round`, `int`: the rounding of the exact value; NaN and ±∞ stay floats -/
+/-- `floor`, `ceil`, `round`: the rounding of the exact value; NaN and ±∞ stay floats -/
 def roundWith (O : FloatOps F C) (rnd : Rat → Int) (a : NNum F C) : Out (NNum F C) :=
   match realView O a with
   | none => .throw
@@ -160,7 +160,12 @@ def unop (O : FloatOps F C) (op : String) (a : NNum F C) : Out (NNum F C) :=
   | "floor" => roundWith O Rat.floor a
   | "ceil" => roundWith O Rat.ceil a
   | "round" => roundWith O roundHalfAway a
-  | "int" => roundWith O trunc a
+  | "int" =>
+    -- the conversion to `int`: truncation of the exact value; a number without one (NaN, ±∞,
+    -- complex) cannot be converted
+    match realView O a with
+    | some (.fin q) => .ok (.int (trunc q))
+    | _ => .throw
   | "rational" =>
     match realView O a with
     | some (.fin q) => .ok (.rat q)
